@@ -573,12 +573,17 @@ func (d *dataCloser) Close() error {
 
 	expectedResponses := len(d.c.rcpts)
 	if d.c.lmtp {
+		// Without a status callback a refusal must not get lost: the first
+		// one is returned once all replies have been read.
+		var firstErr error
 		for expectedResponses > 0 {
 			rcpt := d.c.rcpts[len(d.c.rcpts)-expectedResponses]
 			if _, _, err := d.c.readResponse(250); err != nil {
 				if smtpErr, ok := err.(*SMTPError); ok {
 					if d.statusCb != nil {
 						d.statusCb(rcpt, smtpErr)
+					} else if firstErr == nil {
+						firstErr = smtpErr
 					}
 				} else {
 					return err
@@ -587,6 +592,9 @@ func (d *dataCloser) Close() error {
 				d.statusCb(rcpt, nil)
 			}
 			expectedResponses--
+		}
+		if firstErr != nil {
+			return firstErr
 		}
 	} else {
 		_, _, err := d.c.readResponse(250)
